@@ -80,6 +80,23 @@ def shared_objects(root, canon):
     return [ps for ps in by_id.values() if len(ps) > 1]
 
 
+def shares_anywhere(root):
+    """is some mutable container reachable twice (also through lists / tuples)?"""
+    seen = set()
+
+    def walk(o):
+        if isinstance(o, (Mapping, list)):
+            if id(o) in seen:
+                return True
+            seen.add(id(o))
+        if isinstance(o, Mapping):
+            return any(walk(x) for x in o.values())
+        if isinstance(o, (list, tuple)):
+            return any(walk(x) for x in o)
+        return False
+    return walk(root)
+
+
 def step_key(case):
     return 'contextMerge' if case['op'] == 'merge' else 'defaults'
 
@@ -152,6 +169,7 @@ def run_once(case):
     if not obs['inc_same_value']:
         obs['inc_after'] = after_inc
     obs['shared'] = shared_objects(ctx, canon)
+    obs['shares_anywhere'] = shares_anywhere(dict(ctx))
 
     # ---- run 2: same case, get_formatted_value wrapped on the instance to log what every
     # formatted input came out as (the monitors need the formatted keys)
@@ -161,7 +179,13 @@ def run_once(case):
     real = ctx2.get_formatted_value
     log = []
 
+    inputs = []
+
     def logged(value):
+        if not is_cyclic(value):
+            a0 = canon_log(value)
+            if not any(pv.pv_equal(a0, x) for x in inputs):
+                inputs.append(a0)       # recorded before the call: it may raise
         out = real(value)
         try:
             hash(out)
@@ -179,5 +203,6 @@ def run_once(case):
     del ctx2.get_formatted_value
     same = res2 == res and not is_cyclic(dict(ctx2)) and pv.pv_equal(canon2(dict(ctx2)), obs['ctx_after'])
     obs['fmt_log'] = log
+    obs['fmt_inputs'] = inputs
     obs['rerun_same'] = same
     return obs
